@@ -28,13 +28,16 @@
    point, construction from the API objects, informers started later, nodes created and deleted while the
    controller is down -- no two holders ever overlap: a holder is protected by its reservation (written by this
    incarnation) or by the node cache (listed at start-up), and every copy of a node shows what the node holds.
-   Residue (not a theorem; monitored on the implementation's traces): tombstones and relists, nodes marked
-   deleting, pre-set pod CIDRs: the world-level glue that a node's
+   And WITH THE WHOLE INFORMER CONTRACT (Hist4_proofs.v, invariant JInv = HInv + KInv, last theorem): delete
+   notifications that carry only the store's last known state (tombstones) and relists (pending notifications
+   dropped, every listed node re-delivered, every vanished one deleted with its last known state) at any time.
+   Residue (not a theorem; monitored on the implementation's traces): nodes marked deleting, pod CIDRs pre-set
+   while the informers run, a name re-used before the deletion of its previous bearer was processed: the world-level glue that a node's
    reservation is released only through a deletion notification (or deleting sync) of that very node
    name, and that the CIDRs carried by such notifications are the node's own (assumption E7 about pod
    CIDRs pre-set by the environment; known findings K-TOMB, K-REPL are exactly failures of that glue
    in the other direction: a release that never comes). *)
-From NIPAM Require Import Sys Alloc_proofs Sys_proofs Inv_proofs World_proofs Resv_proofs Hist_proofs Hist2_proofs Hist3_proofs.
+From NIPAM Require Import Sys Alloc_proofs Sys_proofs Inv_proofs World_proofs Resv_proofs Hist_proofs Hist2_proofs Hist3_proofs Hist4_proofs.
 Open Scope N_scope.
 
 (* single step, any world *)
@@ -192,8 +195,62 @@ Example C01_valid_history_nonvacuous :
   = [([110;48], [PGood (mkCidr V4 167772160 27) true]); ([110;49], [PGood (mkCidr V4 167772192 28) true]); ([110;50], [PGood (mkCidr V4 167772208 28) true])].
 Proof.
   cbv zeta. split; [|vm_compute; reflexivity].
-  cbn [valid]. repeat split; cbn; try tauto; try discriminate; try (intros ? E; discriminate E);
-    try (unfold good_obj, good_field, good_range, wf_cidr, wf_pcidr; cbn; repeat split; try lia; try discriminate; intros [? _]; discriminate).
-  all: try (repeat constructor; unfold wf_pcidr, wf_cidr; cbn; repeat split; try lia; reflexivity).
-  all: try (right; split; [reflexivity|intros c cn Hc n2 d [(a & [] & _)|(x & cn2 & [] & _)]]).
+  repeat (match goal with
+          | |- valid ?po ?lab ?w (?o :: ?r) =>
+              change (op_ok w o /\ valid po lab (fst (step po lab w o)) r); split;
+              [|let w' := eval vm_compute in (fst (step po lab w o)) in
+                replace (fst (step po lab w o)) with w' by (vm_compute; reflexivity)]
+          | |- valid _ _ _ [] => exact I
+          end).
+  all: cbn [op_ok]; try exact I.
+  all: try (unfold good_obj, good_field, good_range, wf_cidr; cbn; repeat split; try lia; try discriminate; intros [? _]; discriminate).
+  all: try (split; intros ? E; discriminate E).
+  all: try (split; [cbn; tauto|split; [constructor|left; reflexivity]]).
+  split; [cbn; tauto|]. split; [repeat constructor; unfold wf_pcidr, wf_cidr; cbn; repeat split; try lia; reflexivity|].
+  right. split; [reflexivity|]. intros c cn Hc n2 d [(a & [] & _)|(x & cn2 & [] & _)].
+Qed.
+
+(* the whole informer contract: delete notifications carrying the store's last known state (tombstones) and relists at any
+   time.  [op_ok4] = [op_ok] of the theorem above, plus DeliverNodeTombstone and RelistNodes unconditionally. *)
+Theorem C01_no_two_holders_overlap_with_tombstones_and_relists :
+  forall po lab ops, valid4 po lab init_world ops ->
+  let w := run po lab init_world ops in
+  forall n1 c1 n2 c2, holder w n1 c1 -> holder w n2 c2 -> n1 <> n2 -> overlapb c1 c2 = false.
+Proof. exact no_overlap_with_tombstones_and_relists. Qed.
+Print Assumptions C01_no_two_holders_overlap_with_tombstones_and_relists.
+
+(* it covers everything the previous theorem covers *)
+Theorem C01_valid_histories_are_covered :
+  forall po lab ops w, valid po lab w ops -> valid4 po lab w ops.
+Proof. intros po lab ops w. exact (valid_valid4 po lab ops w). Qed.
+Print Assumptions C01_valid_histories_are_covered.
+
+(* non-vacuity: n1 is served, deleted, and the deletion is seen only through a relist that knows n1 without its pod CIDRs
+   (its block stays reserved: known finding K-TOMB, a leak, not an overlap); n2 is served, its update is delivered, it is
+   deleted and the deletion arrives as a tombstone (block released); n3 and n4 are first seen through a relist and are
+   served with n2's block and the next one *)
+Example C01_informer_contract_history_nonvacuous :
+  let po0 : parse_oracle := fun _ => Some [] in
+  let lab0 : label_oracle := fun k => [cl k] in
+  let ops := [UCreateCC (mkCCObj [99] (FOk (mkCidr V4 167772160 26)) FEmpty 4 (Some [107]) [] false 1 0 0);
+              Construct None None []; StartInformers; ProcCC UOk;
+              UCreateNode [110;49] [] []; DeliverNode; ProcNode [POk]; UDeleteNode [110;49]; RelistNodes;
+              UCreateNode [110;50] [] []; DeliverNode; ProcNode [POk]; DeliverNode; UDeleteNode [110;50]; DeliverNodeTombstone;
+              UCreateNode [110;51] [] []; UCreateNode [110;52] [] []; RelistNodes; ProcNode [POk]; ProcNode [POk]; ProcNode [POk]; ProcNode [POk]] in
+  valid4 po0 lab0 init_world ops /\
+  map (fun a => (an_name a, an_cidrs a)) (w_nodes (run po0 lab0 init_world ops))
+  = [([110;51], [PGood (mkCidr V4 167772176 28) true]); ([110;52], [PGood (mkCidr V4 167772192 28) true])].
+Proof.
+  cbv zeta. split; [|vm_compute; reflexivity].
+  repeat (match goal with
+          | |- valid4 ?po ?lab ?w (?o :: ?r) =>
+              change (op_ok4 w o /\ valid4 po lab (fst (step po lab w o)) r); split;
+              [|let w' := eval vm_compute in (fst (step po lab w o)) in
+                replace (fst (step po lab w o)) with w' by (vm_compute; reflexivity)]
+          | |- valid4 _ _ _ [] => exact I
+          end).
+  all: cbn [op_ok4 op_ok]; try exact I.
+  all: try (unfold good_obj, good_field, good_range, wf_cidr; cbn; repeat split; try lia; try discriminate; intros [? _]; discriminate).
+  all: try (split; [cbn; tauto|split; [constructor|left; reflexivity]]).
+  all: try (split; intros ? E; discriminate E).
 Qed.
